@@ -131,6 +131,10 @@ func (vc *VC) verify() (obls []*Obligation, err error) {
 			s.assume(env.evalBool(kf.Expr))
 		}
 	}
+	if spec.Propagates {
+		s.ghost["$failed"] = False
+		vc.ghostTypes["$failed"] = types.Typ[types.Bool]
+	}
 	if len(spec.WorkerEnsures) > 0 || spec.ChanNonNil {
 		s.ghost["$spawned"] = IntLit(0)
 		s.ghost["$quiet"] = False
@@ -193,6 +197,9 @@ func (vc *VC) verify() (obls []*Obligation, err error) {
 		if i == 0 {
 			post.vars["result"] = TV{res[i], rv.Type()}
 		}
+	}
+	for k, t := range s.ghost {
+		post.vars[k] = TV{t, vc.ghostTypes[k]}
 	}
 	for i, e := range spec.Ensures {
 		vc.curClause = e
